@@ -747,6 +747,50 @@ def reaching_values(fn: ast.AST, name: str, at: ast.AST) -> Optional[List[Tuple[
     return out
 
 
+def param_alternatives(fn: ast.AST, pname: str, at: ast.AST):
+    """What the parameter `pname` holds when `at` is evaluated: [(expression, conditions)] with the expression None for
+    "the argument as it was given".  A definition that reaches `at` around a branch which rebinds the name carries the
+    negated condition of that branch.  None when a binding of another kind (loop target, unpacking) reaches."""
+    from ..cfg import reaching_defs, def_value
+
+    cfg = _cfg_of(fn)
+    cn = _cfg_node_at(fn, at)
+    if cn is None:
+        return None
+    items = []
+    for d in sorted(reaching_defs(cfg, pname)[cn.id]):
+        if d == -1:
+            items.append((None, [], None))
+            continue
+        v = def_value(cfg.nodes[d], pname)
+        if v is None:
+            return None
+        items.append((v, list(path_conditions(fn, cfg.nodes[d].ast)), cfg.nodes[d].ast))
+    par = au.parents(fn)
+    out = []
+    for v, cds, st in items:
+        extra = []
+        for v2, cds2, st2 in items:
+            if st2 is None or st2 is st or not cds2:
+                continue
+            t2, pol2 = cds2[-1]
+            iff = par.get(st2)
+            if not (isinstance(iff, ast.If) and iff.test is t2):
+                continue
+            inside, is_inside = st, False
+            while inside is not None and inside in par:
+                inside = par[inside]
+                if inside is iff:
+                    is_inside = True
+                    break
+            if is_inside:
+                continue
+            if (st is None or executes_before(fn, st, iff)) and not any(t is t2 for t, _p in cds):
+                extra.append((t2, not pol2))
+        out.append((v, cds + extra))
+    return out
+
+
 def alternatives(fn: ast.AST, e: ast.AST, conds: List[Tuple[ast.AST, bool]], depth: int = 5, at: Optional[ast.AST] = None) -> List[Tuple[ast.AST, List[Tuple[ast.AST, bool]]]]:
     """The values `e` can take at a use governed by `conds`, as [(expression over parameters, conditions)]:
     singly-bound locals are replaced by their definition; a local bound on several branches (the canonical
@@ -954,6 +998,179 @@ def module_level_state(tree: ast.Module) -> List[str]:
                 out.append(nm)
     return out
 
+
+# --------------------------------------------------------------------------
+# which names a dispatch over a string key admits at a statement
+# --------------------------------------------------------------------------
+
+
+def _keyset(t: ast.AST, kv: str):
+    """`t` as a set test on the name `kv`: (positive, S) meaning kv ∈ S / kv ∉ S; None when it is no such test.
+    Collections given by name enter as the token '@name'."""
+    def elts(c):
+        if isinstance(c, (ast.Tuple, ast.List, ast.Set)) and all(isinstance(x, ast.Constant) for x in c.elts):
+            return {x.value for x in c.elts}
+        if isinstance(c, ast.Name):
+            return {"@" + c.id}
+        return None
+    if isinstance(t, ast.UnaryOp) and isinstance(t.op, ast.Not):
+        r = _keyset(t.operand, kv)
+        return None if r is None else (not r[0], r[1])
+    if isinstance(t, ast.Compare) and len(t.ops) == 1:
+        l, op, r = t.left, t.ops[0], t.comparators[0]
+        if isinstance(l, ast.Constant) and isinstance(r, ast.Name) and isinstance(op, (ast.Eq, ast.NotEq)):
+            l, r = r, l
+        if isinstance(l, ast.Name) and l.id == kv:
+            if isinstance(op, (ast.Eq, ast.NotEq)) and isinstance(r, ast.Constant):
+                return (isinstance(op, ast.Eq), {r.value})
+            if isinstance(op, (ast.In, ast.NotIn)):
+                e = elts(r)
+                if e is not None:
+                    return (isinstance(op, ast.In), e)
+        return None
+    if isinstance(t, ast.BoolOp):
+        rs = [_keyset(v, kv) for v in t.values]
+        if any(r is None for r in rs):
+            return None
+        acc = rs[0]
+        for r in rs[1:]:
+            acc = _ks_or(acc, r) if isinstance(t.op, ast.Or) else _ks_not(_ks_or(_ks_not(acc), _ks_not(r)))
+        return acc
+    return None
+
+
+def _ks_not(a):
+    return (not a[0], a[1])
+
+
+def _ks_or(a, b):
+    if a[0] and b[0]:
+        return (True, a[1] | b[1])
+    if not a[0] and not b[0]:
+        return (False, a[1] & b[1])
+    pos, neg = (a, b) if a[0] else (b, a)
+    return (False, neg[1] - pos[1])
+
+
+def key_tests(fn: ast.AST, node: ast.AST, kv: str):
+    """The names of `kv` under which `node` executes, from the tests on its path: ((positive, S), opaque) — `kv ∈ S` or
+    `kv ∉ S` — and the tests that mention `kv` in any other way than comparing it with fixed names."""
+    acc = (False, set())
+    opaque: List[str] = []
+    todo = list(path_conditions(fn, node))
+    while todo:
+        t, pol = todo.pop(0)
+        if not any(isinstance(x, ast.Name) and x.id == kv for x in ast.walk(t)):
+            continue
+        if isinstance(t, ast.UnaryOp) and isinstance(t.op, ast.Not):
+            todo.insert(0, (t.operand, not pol))
+            continue
+        if isinstance(t, ast.BoolOp) and ((isinstance(t.op, ast.And) and pol) or (isinstance(t.op, ast.Or) and not pol)):
+            todo = [(v, pol) for v in t.values] + todo
+            continue
+        r = _keyset(t, kv)
+        if r is None:
+            if isinstance(t, ast.Call) and isinstance(t.func, ast.Name) and t.func.id == "isinstance":
+                continue
+            opaque.append(("" if pol else "not ") + ast.unparse(t))
+            continue
+        if not pol:
+            r = _ks_not(r)
+        acc = _ks_not(_ks_or(_ks_not(acc), _ks_not(r)))
+    return acc, opaque
+
+
+_MEMO_DECOS = ("lru_cache", "cache", "cached_property", "memoize", "memoise", "memo")
+_WRITE_METHODS = ("append", "extend", "insert", "update", "pop", "popitem", "setdefault", "clear", "add", "remove", "discard")
+
+
+def cross_call_state(tree: ast.Module) -> List[str]:
+    """Everything in a file that lets one call of its functions see an earlier one: module-level containers the code
+    writes to, memoising decorators, mutable default arguments that are written, attributes hung on the functions
+    themselves, `global` rebinding.  Returns one descriptor per construct."""
+    out = [f"module-level container `{n}`" for n in module_level_state(tree)]
+    fnames = {st.name for st in tree.body if isinstance(st, (ast.FunctionDef, ast.AsyncFunctionDef))}
+    for fn in ast.walk(tree):
+        if isinstance(fn, (ast.FunctionDef, ast.AsyncFunctionDef)):
+            for d in fn.decorator_list:
+                t = d.func if isinstance(d, ast.Call) else d
+                last = t.attr if isinstance(t, ast.Attribute) else (t.id if isinstance(t, ast.Name) else "")
+                if last in _MEMO_DECOS or "cache" in last.lower() or "memo" in last.lower():
+                    out.append(f"memoising decorator `@{ast.unparse(d)}` on {fn.name}")
+            a = fn.args
+            pos = a.posonlyargs + a.args
+            dflt = list(zip(pos[len(pos) - len(a.defaults):], a.defaults)) + [(k, v) for k, v in zip(a.kwonlyargs, a.kw_defaults) if v is not None]
+            for arg, v in dflt:
+                if isinstance(v, (ast.Dict, ast.List, ast.Set)) or (isinstance(v, ast.Call) and isinstance(v.func, ast.Name) and v.func.id in ("dict", "list", "set", "defaultdict", "OrderedDict")):
+                    nm = arg.arg
+                    if any((isinstance(x, ast.Subscript) and isinstance(x.ctx, (ast.Store, ast.Del)) and isinstance(x.value, ast.Name) and x.value.id == nm)
+                           or (isinstance(x, ast.Call) and isinstance(x.func, ast.Attribute) and isinstance(x.func.value, ast.Name) and x.func.value.id == nm and x.func.attr in _WRITE_METHODS) for x in ast.walk(fn)):
+                        out.append(f"mutable default argument `{nm}` of {fn.name} is written")
+            for x in ast.walk(fn):
+                if isinstance(x, ast.Global):
+                    out.append(f"`global {', '.join(x.names)}` in {fn.name}")
+    for x in ast.walk(tree):
+        if isinstance(x, ast.Attribute) and isinstance(x.ctx, ast.Store) and isinstance(x.value, ast.Name) and x.value.id in fnames:
+            out.append(f"attribute `{x.value.id}.{x.attr}` hung on a function")
+    return sorted(set(out))
+
+
+def input_writes(fn: ast.AST, extra_roots: Iterable[str] = ()) -> List[Tuple[ast.AST, str]]:
+    """Writes into what a function was handed: attribute stores, setattr, deletions and mutating method calls whose receiver
+    is a parameter (not self / cls), one of `extra_roots` (dotted, e.g. `self.sim`), or something read out of those
+    (attribute, item, element of an iteration).  Results of calls are new objects and are not followed."""
+    args = fn.args
+    tainted = {a.arg for a in args.posonlyargs + args.args + args.kwonlyargs if a.arg not in ("self", "cls")}
+    if args.vararg:
+        tainted.add(args.vararg.arg)
+    if args.kwarg:
+        tainted.add(args.kwarg.arg)
+    extra = set(extra_roots)
+
+    def is_t(e: ast.AST) -> bool:
+        if isinstance(e, ast.Name):
+            return e.id in tainted
+        if isinstance(e, ast.Attribute):
+            return ast.unparse(e) in extra or is_t(e.value)
+        if isinstance(e, (ast.Subscript, ast.Starred)):
+            return is_t(e.value)
+        if isinstance(e, ast.Call) and isinstance(e.func, ast.Attribute) and e.func.attr in ("values", "items", "get") and not e.keywords:
+            return is_t(e.func.value)
+        if isinstance(e, ast.Call) and isinstance(e.func, ast.Name) and e.func.id in ("iter", "reversed", "enumerate", "zip", "sorted", "list", "tuple") and e.args:
+            return any(is_t(a) for a in e.args)
+        if isinstance(e, ast.IfExp):
+            return is_t(e.body) or is_t(e.orelse)
+        if isinstance(e, ast.BoolOp):
+            return any(is_t(v) for v in e.values)
+        return False
+
+    def bind(t: ast.AST):
+        for x in ast.walk(t):
+            if isinstance(x, ast.Name) and isinstance(x.ctx, ast.Store):
+                tainted.add(x.id)
+
+    for _ in range(4):
+        n0 = len(tainted)
+        for st in au.walk_no_nested(fn):
+            if isinstance(st, ast.Assign) and is_t(st.value):
+                for t in st.targets:
+                    if isinstance(t, (ast.Name, ast.Tuple, ast.List)):
+                        bind(t)
+            elif isinstance(st, (ast.For, ast.comprehension)) and is_t(st.iter):
+                bind(st.target)
+            elif isinstance(st, ast.NamedExpr) and is_t(st.value):
+                bind(st.target)
+        if len(tainted) == n0:
+            break
+    out: List[Tuple[ast.AST, str]] = []
+    for x in au.walk_no_nested(fn):
+        if isinstance(x, (ast.Attribute, ast.Subscript)) and isinstance(x.ctx, (ast.Store, ast.Del)) and is_t(x.value):
+            out.append((x, f"`{ast.unparse(x)}` is {'deleted' if isinstance(x.ctx, ast.Del) else 'assigned'}"))
+        elif isinstance(x, ast.Call) and isinstance(x.func, ast.Name) and x.func.id in ("setattr", "delattr") and x.args and is_t(x.args[0]):
+            out.append((x, f"`{ast.unparse(x)[:80]}`"))
+        elif isinstance(x, ast.Call) and isinstance(x.func, ast.Attribute) and x.func.attr in _WRITE_METHODS + ("sort", "reverse", "__setitem__", "__delitem__", "__setattr__") and is_t(x.func.value):
+            out.append((x, f"`{ast.unparse(x)[:80]}` changes it in place"))
+    return out
 
 
 def container_contents(fn: ast.AST, cname: str, depth: int = 3):
